@@ -19,6 +19,7 @@ import random
 from typing import Any, Dict, Iterable, List, Optional, Tuple
 
 from .kernel import seam
+from .core import H as H_Core
 from .core import Chooser, Digest, HarnessError, Outcome, Violation, draw_policy, exc_to_violation
 
 PROP = "C06"
@@ -210,8 +211,34 @@ def _mk_chunks(subs) -> Tuple[List[List[List[Tuple[bytes, int]]]], bytes, List[T
     return out, bytes(stream), obs
 
 
+def H_(record: dict) -> int:
+    return H_Core(str(record["workload"]), str(record["config"].get("spill")))
+
+
+_LAYER_A_NAMES = ("_mpu_append_chunks_op", "_merge_and_spill_op", "_mpu_collate_op", "_finalizer_dask_op")
+_LAYER_A_OK: Optional[bool] = None
+
+
+def layer_a_available() -> bool:
+    """Layer A drives four module-level helpers directly.  If a refactor renamed them the
+    property is still decided through the public ``mpu_write`` (layer B) - at a lower rate."""
+    global _LAYER_A_OK  # pylint: disable=global-statement
+    if _LAYER_A_OK is None:
+        from odc.geo.cog import _mpu as M
+
+        _LAYER_A_OK = all(hasattr(M, n) for n in _LAYER_A_NAMES) and hasattr(getattr(M, "MPUChunk", None), "gen_bunch")
+    return _LAYER_A_OK
+
+
 def execute(record: dict, rng: Optional[random.Random]) -> Outcome:
     cfg = record["config"]
+    if cfg.get("layer", "A") == "A" and not layer_a_available():
+        if H_(record) % 16:  # keep 1 run in 16, as layer B (two orders of magnitude slower)
+            return Outcome(None, "skipped", None, stats={"probes": {"layerA_unavailable_skipped": 1}}, cls=None, nontrivial=False)
+        record = copy.deepcopy(record)
+        record["config"]["layer"] = "B"
+        record["config"]["dask"] = {"workers": 1, "optimize": True, "task_transport": False, "stall": 0.0}
+        cfg = record["config"]
     if cfg.get("layer", "A") == "B":
         from . import c06b
 
